@@ -127,8 +127,10 @@ def _dist(ob, a, b):
 
 
 def _specificity_shape(case, ob, step):
-    """Shape of a clause-6 failure: was an offer from an *incomparable* protocol at the same MRO distance
-    among the applicable edges (the only way the code's partial comparator can be led astray)?"""
+    """Shape of a clause-6 failure.  The code's comparator is a strict weak order — and CPython's insertion then sorts
+    correctly (theorem executable_model_satisfies_law_when_comparable) — unless, among the from-protocols of the
+    applicable edges at the chosen MRO distance, two are incomparable or two are subclasses of EACH OTHER (possible
+    through ABC registration: T2(T1) real, T1 registered to T3, T3 registered to T2).  Anything else is `direct`."""
     try:
         src, tgt, flag, api = case["ops"][step]
         o = ob["obs"][step]
@@ -136,13 +138,13 @@ def _specificity_shape(case, ob, step):
         chain = next(v[1] for v in vals if v and v[0] == "adapter")
         sub, mro, offers = state_at(case, ob, step)
         tb = {"sub": sub, "mro": mro}
-        f0 = offers[chain[0]][0]
-        d0 = _dist(tb, src, f0)
-        for i, (f, t, fc) in enumerate(offers):
-            if i != chain[0] and sub[src][f] and _dist(tb, src, f) == d0 and f != f0:
-                for j, (g, t2, fc2) in enumerate(offers):
-                    if sub[src][g] and _dist(tb, src, g) == d0 and g != f and not sub[f][g] and not sub[g][f]:
-                        return "incomparable-offer-at-same-distance"
+        d0 = _dist(tb, src, offers[chain[0]][0])
+        fs = sorted(set(f for f, t, fc in offers if sub[src][f] and _dist(tb, src, f) == d0))
+        pairs = [(f, g) for f in fs for g in fs if f < g]
+        if any(not sub[f][g] and not sub[g][f] for f, g in pairs):
+            return "incomparable-offer-at-same-distance"
+        if any(sub[f][g] and sub[g][f] for f, g in pairs):
+            return "mutually-subclassing-offers-at-same-distance"
         return "direct"
     except Exception:
         return "direct"
@@ -346,6 +348,13 @@ def corpus():
     types = [{"bases": []}, {"bases": []}, {"bases": [1]}, {"bases": []}, {"bases": [0, 2, 3]}, {"bases": []}]
     cs.append(dict(types=types, regs=[], offers=[[1, 5, ["A"]], [3, 5, ["A"]], [2, 5, ["A"]]],
                    ops=[[4, 5, 0, a] for a in ("adapt", "adapt_default", "Supports", "AdaptsTo", "inst1")]))
+    # second shape of F21: issubclass cycles through ABC registration (T2(T0, T1) real, T2.register(T3), T3.register(T1):
+    # T1 < T3 < T2 < T1): the comparator answers -1 both ways, the offer from T3 is applied although T1 is strictly
+    # more specific than T3
+    cs.append(dict(types=[{"bases": [], "abc": False}, {"bases": [], "abc": False}, {"bases": [0, 1], "abc": True},
+                          {"bases": [], "abc": True}], regs=[[2, 3], [3, 1]],
+                   offers=[[1, 0, ["A"]], [2, 3, ["A"]], [3, 2, ["A"]], [3, 1, ["A"]], [0, 3, ["A"]]],
+                   ops=[[1, 0, 0, "adapt"], [1, 0, 0, "inst2"]]))
     # the same without the incomparable offer: the specific offer wins
     cs.append(dict(types=types, regs=[], offers=[[1, 5, ["A"]], [2, 5, ["A"]]],
                    ops=[[4, 5, 0, a] for a in ("adapt", "Supports")]))
